@@ -23,12 +23,17 @@
      C05_accept_iff_refuted : the five known findings are inside the class, with their witnesses on the model.
    `_partial` because (a) the converse directions assume a recursion limit above the number of `{`, `[`, `:` tokens
    (a crude bound on the nesting depth; with a smaller limit the parser may report a recursion-limit error on a
-   grammatical document) and no token limit; (b) C05_definitions_agree is proved only at the level of the grammars
-   (C05_definitions_agree_grammar_partial): the list read off the parser's TREE is not linked (the link abstracts the
-   tree builder away); that part stays with the correspondence run. *)
+   grammatical document) and no token limit; (b) of C05_definitions_agree (the (kind, name) list of
+   cst::Document::definitions() read off the parser's TREE equals the reference's) only the KINDS are proved
+   (C05_definition_kinds_agree_partial: the definition nodes directly under the DOCUMENT root of the tree the model
+   builds are, in order, of the reference's definition kinds; through a proof about rowan's GreenNodeBuilder as the
+   parser drives it, Parse/RefLinkTree.v, RefLinkKinds.v); the NAMES read off the tree are not linked (that needs the
+   inner shape of every definition node) and stay with the correspondence run; at the level of the two grammars the
+   whole list agrees (C05_definitions_agree_grammar_partial). *)
 From ApolloVerif Require Import Base.Chars Lex.Item Lex.Fun Parse.RefGrammar Parse.RefLib Parse.RefSpec
   Parse.RefSpecTS Parse.RefProofsValue Parse.RefProofsExec Parse.RefProofsTS
-  Parse.Outcome Parse.Entry Parse.RefLenient Parse.RefLenientProofs Parse.RefLinkBase Parse.RefLinkTop.
+  Parse.Outcome Parse.Entry Parse.RefLenient Parse.RefLenientProofs Parse.RefLinkBase Parse.RefLinkKinds
+  Parse.RefLinkTop.
 
 (* ---- fuel = token count suffices ---- *)
 Theorem C05_rg_fuel_enough : forall ts, rg_document_r rg_definition ts <> RgOut.
@@ -263,6 +268,39 @@ Proof. exact rl_document_definitions_agree. Qed.
 Check C05_definitions_agree_grammar_partial : forall ts ds ds',
   rg_document ts = Some ds -> rgl_document rgl_parser ts = Some ds' -> ds' = ds.
 Print Assumptions C05_definitions_agree_grammar_partial.
+
+(* the definitions in the TREE, kinds only: p_tree_def_kinds t = the definition kinds of the nodes directly under the
+   DOCUMENT root of t, in order (what cst::Document::definitions() iterates over, through Definition::cast).
+   Full statement C05_definitions_agree_partial (kinds AND names) is not proved: the names are missing. *)
+Theorem C05_definition_kinds_agree_partial : forall dbg rl s r ts ds,
+  parse_document_items dbg rl (lex_all s) = POk r -> pr_errors r = [] ->
+  rg_significant (lex_all s) = Some ts -> rg_document ts = Some ds ->
+  p_tree_def_kinds (pr_tree r) = map fst ds.
+Proof. exact rl_document_kinds_agree. Qed.
+Check C05_definition_kinds_agree_partial : forall dbg rl s r ts ds,
+  parse_document_items dbg rl (lex_all s) = POk r -> pr_errors r = [] ->
+  rg_significant (lex_all s) = Some ts -> rg_document ts = Some ds ->
+  p_tree_def_kinds (pr_tree r) = map fst ds.
+Print Assumptions C05_definition_kinds_agree_partial.
+
+(* ... also inside the known class, against the relaxed grammar (e.g. `"d" fragment on T {a}` is a Fragment node) *)
+Theorem C05_definition_kinds_relaxed : forall dbg rl s r ts ds,
+  parse_document_items dbg rl (lex_all s) = POk r -> pr_errors r = [] ->
+  rg_significant (lex_all s) = Some ts -> rgl_document rgl_parser ts = Some ds ->
+  p_tree_def_kinds (pr_tree r) = map fst ds.
+Proof. exact rl_document_kinds_source. Qed.
+Check C05_definition_kinds_relaxed : forall dbg rl s r ts ds,
+  parse_document_items dbg rl (lex_all s) = POk r -> pr_errors r = [] ->
+  rg_significant (lex_all s) = Some ts -> rgl_document rgl_parser ts = Some ds ->
+  p_tree_def_kinds (pr_tree r) = map fst ds.
+Print Assumptions C05_definition_kinds_relaxed.
+
+(* non-vacuity: the tree the model builds for the example document has an operation, an object type definition and a
+   schema extension under its root, as the reference says *)
+Example C05_kinds_nonvacuous :
+  rl_tree_kinds_of (parse_document_items false 500 (lex_all c05_ex_doc)) = Some [RgkOperation; RgkObjectDef; RgkSchemaExt] /\
+  option_map (map fst) (rg_parse_source c05_ex_doc) = Some [RgkOperation; RgkObjectDef; RgkSchemaExt].
+Proof. split; vm_compute; reflexivity. Qed.
 
 (* non-vacuity of C05_accept_iff_partial: the example document above is parsed without error by the model, its tokens
    are outside the known class, within the recursion budget, and the reference accepts them *)
